@@ -202,18 +202,20 @@ func AcceptBidToBuy1SatOrdinal(ctx context.Context, vba *ValidateBidArgs, aba *A
 	tx := aba.PSTx.Clone()
 
 	tx.Outputs[1].LockingScript = aba.SellerReceiveScript
-	// check if fees paid are still enough with new
-	// locking script
-	enough, err := tx.IsFeePaidEnough(vba.ExpectedFQ)
-	if err != nil || !enough {
-		return nil, bt.ErrInsufficientFees
-	}
 
 	tx.Inputs[1].PreviousTxScript = vba.OrdinalUTXO.LockingScript
 	tx.Inputs[1].PreviousTxSatoshis = vba.OrdinalUTXO.Satoshis
-	err = tx.FillInput(ctx, aba.OrdinalUnlocker, bt.UnlockerParams{InputIdx: 1})
+	err := tx.FillInput(ctx, aba.OrdinalUnlocker, bt.UnlockerParams{InputIdx: 1})
 	if err != nil {
 		return nil, err
+	}
+
+	// check if fees paid are still enough with the new locking
+	// script, on the completed tx (the ordinal input's unlocking
+	// script is part of the size the fee has to cover)
+	enough, err := tx.IsFeePaidEnough(vba.ExpectedFQ)
+	if err != nil || !enough {
+		return nil, bt.ErrInsufficientFees
 	}
 
 	return tx, nil
